@@ -82,6 +82,21 @@ pub fn gen_steps(rng: &mut Rng, ntok: usize) -> Vec<Value> {
     v
 }
 
+/// the same queries through the kind-dispatching `DecodedMap::lookup_token`
+fn lookups_decoded(d: &DecodedMap, qs: &[Value]) -> Value {
+    let mut rs = vec![];
+    for q in qs {
+        let (l, c) = (qnum(&q[0]), qnum(&q[1]));
+        let r = guard(|| match d.lookup_token(l, c) {
+            Some(t) => json!([{"tok": tok_json(&t), "sl": num(t.get_src_line()), "sc": num(t.get_src_col())}]),
+            None => json!([]),
+        });
+        if r.get("k").is_some() { return json!({"k": "panic", "at": q, "msg": r["msg"]}); }
+        rs.push(r);
+    }
+    json!({"k": "ok", "rs": rs})
+}
+
 fn observe(sm: &SourceMap, qs: &[Value], via: &str, how: &str, em: &mut Emitter) {
     let toks: Vec<Value> = sm.tokens().map(|t| tok_json(&t)).collect();
     em.emit("ordering", json!({"how": how, "via": via}), ordering_out(sm));
@@ -102,6 +117,8 @@ pub fn run(case: &Value, em: &mut Emitter) {
         match &d {
             DecodedMap::Regular(sm) => {
                 observe(sm, &qs, "direct", &how, em);
+                let toks: Vec<Value> = sm.tokens().map(|t| tok_json(&t)).collect();
+                em.emit("lookups", json!({"how": how, "via": "decodedmap", "toks": toks, "qs": qs}), lookups_decoded(&d, &qs));
                 if case.get("producers").is_some() {
                     if let Ok(r) = sm.clone().rewrite(&sourcemap::RewriteOptions::default()) {
                         observe(&r, &qs, "rewrite", &how, em);
@@ -131,7 +148,11 @@ pub fn run(case: &Value, em: &mut Emitter) {
                     observe(&f, &qs, "flatten", &how, em);
                 }
             }
-            DecodedMap::Hermes(h) => observe(h, &qs, "direct", &how, em),
+            DecodedMap::Hermes(h) => {
+                observe(h, &qs, "direct", &how, em);
+                let toks: Vec<Value> = h.tokens().map(|t| tok_json(&t)).collect();
+                em.emit("lookups", json!({"how": how, "via": "decodedmap", "toks": toks, "qs": qs}), lookups_decoded(&d, &qs));
+            }
         }
     }
 }
@@ -156,6 +177,8 @@ pub fn gen_queries(rng: &mut Rng, toks: &[Value], n: usize) -> Vec<Value> {
             _ => json!([l, MAXU]),
         });
     }
+    // coordinates never exceed the stand-in for u32::MAX
+    for q in qs.iter_mut() { for k in 0..2 { if q[k].as_i64().unwrap() > MAXU { q[k] = json!(MAXU); } } }
     qs
 }
 
@@ -171,8 +194,24 @@ fn gen_run(rng: &mut Rng) -> Value {
     json!({"op": "lookup", "toks": toks, "nsrc": 1, "nnm": 0, "how": "new",
            "qs": [[3, 7], [3, 6], [3, 8], [3, 100], [4, 0], [1, 0], [0, 0], [2, 5]]})
 }
+/// tokens at extreme coordinates (column / line u32::MAX, written MAXU), handed over in any order
+fn gen_extreme(rng: &mut Rng) -> Value {
+    let mut toks = vec![];
+    let l0 = rng.range(0, 3);
+    for l in l0..l0 + 1 + rng.range(0, 2) {
+        if rng.chance(2, 3) { toks.push(json!([l, 0, 0, toks.len(), 0, -1, 0])); }
+        if rng.chance(1, 2) { toks.push(json!([l, rng.range(1, 50), 0, toks.len(), 0, -1, 0])); }
+        if rng.chance(2, 3) { toks.push(json!([l, MAXU, 0, toks.len(), 0, -1, 0])); }
+    }
+    if rng.chance(1, 3) { toks.push(json!([MAXU, rng.range(0, 3), 0, toks.len(), 0, -1, 0])); }
+    crate::c02::shuffle(rng, &mut toks);
+    let mut qs = vec![json!([0, 0]), json!([MAXU, MAXU]), json!([l0, MAXU]), json!([l0 + 1, 0]), json!([l0 + 1, 1]), json!([l0, 60])];
+    qs.extend(gen_queries(rng, &toks, 10));
+    json!({"op": "lookup", "toks": toks, "nsrc": 1, "nnm": 0, "how": "new", "qs": qs})
+}
 fn gen_with(rng: &mut Rng, size: usize, with_range: bool) -> Value {
     if !with_range && rng.chance(1, 10) { return gen_run(rng); }
+    if !with_range && rng.chance(1, 12) { return gen_extreme(rng); }
     let mut m = if rng.chance(1, 8) && !with_range {
         json!({"op": "lookup", "doc": crate::c02::gen_index_doc(rng, size, 1)})
     } else {
